@@ -55,6 +55,13 @@ def conciliation_and_replica_runs(tier, seed, tail):
     return []
 
 
+def orders_after_master_loss(tier, seed, tail):
+    """supvisors.restart / shutdown on a non-Master at every micro-step after the Master crashed (family of C02; it
+    found F25: RuntimeError / ValueError out of the XML-RPC)."""
+    import c02
+    return c02.orders_after_master_loss(tier, seed, tail)
+
+
 def user_sync_scenarios(tier, seed, tail):
     """USER synchronisation: end_sync with every form of the Master argument (none, nick, full identifier, unknown) on
     every instance, at different rounds."""
@@ -141,6 +148,6 @@ def main(tier, seed, replay=None):
                   n_beh=48 if q else 400, beh_depth=150, n_rnd=50 if q else 500, rnd_steps=300,
                   e1_timeout=600 if q else 1500, inject=True,
                   extra_scenarios=[user_sync_scenarios, sequencing_runs, cl.hold_distribution_scenarios,
-                                   conciliation_and_replica_runs],
+                                   conciliation_and_replica_runs, orders_after_master_loss],
                   notes=['the object-level partial operations are covered by the other families: every check '
                          'records internal errors of its own runs (C11 err, C17 non-RPCError exceptions, ...)'])
